@@ -53,6 +53,7 @@ type world struct {
 	ts      map[string]*sess.Conn
 	owner   map[string]string   // test session -> user it is authenticated as (as the model says)
 	cur     map[string]sess.Act // test session -> the last step of it (nphase .. nidle: where the model says it is)
+	idleBox map[string]string   // test session in IDLE -> its selected mailbox as projected when the IDLE began
 	rend    *sess.Renderer
 	base    map[string]*proj
 	armed   bool
@@ -70,6 +71,7 @@ type stats struct {
 	jailWaits int64
 	minJail   time.Duration
 	restarts  int64
+	uncovered int64
 	perCmd    map[string]int64
 }
 
@@ -81,7 +83,7 @@ func newWorld(r *ev.Run, family string, jailMs int, seed int64, st *stats) (*wor
 		return nil, err
 	}
 	w := &world{r: r, family: family, jailMs: jailMs, srv: srv, obs: map[string]*sess.Conn{}, ts: map[string]*sess.Conn{},
-		owner: map[string]string{}, cur: map[string]sess.Act{}, rend: sess.NewRenderer(seed), base: map[string]*proj{}, stats: st}
+		owner: map[string]string{}, cur: map[string]sess.Act{}, idleBox: map[string]string{}, rend: sess.NewRenderer(seed), base: map[string]*proj{}, stats: st}
 	for _, u := range []string{"u1", "u2"} {
 		c, err := sess.Dial(srv.Addr, watch)
 		if err != nil {
@@ -525,7 +527,13 @@ func (w *world) exec(a *sess.Act, preKey string) (bool, error) {
 	}
 	reaches := a.Login != "none" // a LOGIN that reaches the backend
 	t0 := time.Now()
-	o := c.Do(line, watch)
+	o := c.DoPatient(line, watch, func() time.Duration {
+		p0 := time.Now()
+		if po := w.obs["u1"].Cmd("NOOP", 3*watch); po.Status != "OK" {
+			return -1
+		}
+		return time.Since(p0)
+	})
 	took := time.Since(t0)
 	w.log = append(w.log, fmt.Sprintf("%s [%s as %s]: %s  =>  %s", a.S, a.Was, a.AsUser, line.Text, o.Brief()))
 	if len(w.log) > 40 {
@@ -564,8 +572,23 @@ func (w *world) exec(a *sess.Act, preKey string) (bool, error) {
 	}
 	if o.Status == "CONT" && a.X == "IDLE" {
 		c.IdleTag = tag
+		if a.NSel != "none" && w.base[a.AsUser] != nil {
+			w.idleBox[a.S] = w.base[a.AsUser].Box[a.NSel]
+		}
 	} else if a.InIdle {
 		c.IdleTag = ""
+		// while idle a session is told about changes of ITS selected mailbox only: if that mailbox is as it was
+		// when the IDLE began, nothing about messages may have been announced
+		if was, ok := w.idleBox[a.S]; ok && w.base[a.AsUser] != nil {
+			if now := w.base[a.AsUser].Box[w.cur[a.S].NSel]; now == was {
+				for _, l := range o.Untagged {
+					if reExists.MatchString(l.Text) || reFetch.MatchString(l.Text) || strings.HasSuffix(l.Text, " EXPUNGE") {
+						w.violate(sig+"/foreign-update", fmt.Sprintf("the idle session of %s was sent %q although its selected mailbox %q did not change during the IDLE", a.AsUser, l.Text, w.cur[a.S].NSel))
+					}
+				}
+			}
+		}
+		delete(w.idleBox, a.S)
 	}
 	if a.Bye && sync && !o.Bye {
 		w.violate(sig+"/no-bye", fmt.Sprintf("%s: completed without the untagged BYE", line.Text))
@@ -741,6 +764,7 @@ func walk(r *ev.Run, f family, m *sess.Model, part int, seed int64, st *stats) {
 		st.add(func(s *stats) { s.restarts++ })
 		if restarts > 400 {
 			r.Machinery("%s: more than 400 restarts of the server, giving up", f.name)
+			st.add(func(s *stats) { s.uncovered += int64(pl.Left()) })
 			return
 		}
 	}
@@ -892,7 +916,8 @@ func run(r *ev.Run, tier, replay string) {
 	r.Set("jail_ms_configured", jail)
 	r.Set("jail_shortest_answer_after_arming_ms", st.minJail.Milliseconds())
 	r.Set("steps_per_command_class", st.perCmd)
-	r.Set("exhaustive", r.NumViolations() == 0)
+	r.Set("printed_transitions_not_executed", st.uncovered)
+	r.Set("exhaustive", st.uncovered == 0)
 	r.Set("rule", "graph families (matrix, pairs, jail): TLC explores the whole state graph of the configuration and prints every transition (state, session, input class) with the acceptable result classes, tag, effect class and next state; tours over the graph execute every printed transition on a real two-user server; phases: every input sequence of the given length is one behaviour, each replayed on a new connection. traces_validated_against_impl = printed transitions + behaviours, all executed; evaluations = steps sent to the server (tours repeat transitions on the way); non-trivial = every step that sends a line (not model ticks / reconnects); distinct = distinct (state, session, input class)")
 	r.Assumptions = []string{
 		"mailbox contents are not part of the specification's state: a step names the components (namespace / mailbox of a user) it may change, and the harness compares LIST, LSUB and per mailbox STATUS (MESSAGES UIDNEXT UIDVALIDITY) + FETCH 1:* (UID FLAGS SUBJECT) of BOTH users before and after every step (\\Recent is ignored); observers are persistent sessions that EXAMINE every mailbox anew for each projection",
